@@ -261,6 +261,92 @@ fn run_case(line: &str) -> Result<String, String> {
             let ufuncs = parse_ufuncs(&mut t)?;
             Ok(run_ctx(&entry, progs, binds, ufuncs))
         }
+        "evalsrc" => {
+            // evalsrc <entry> S( name src ... ) B( ... ) F( ... ): programs from source text
+            let entry = unhex_str(t.next()?)?;
+            expect(&mut t, "S(")?;
+            let mut progs = Vec::new();
+            let mut err: Option<String> = None;
+            loop {
+                if t.peek() == Some(")") {
+                    t.next()?;
+                    break;
+                }
+                let n = unhex_str(t.next()?)?;
+                let src = unhex_str(t.next()?)?;
+                if err.is_none() {
+                    match rscel::Program::from_source(&src) {
+                        Ok(p) => progs.push((n, p)),
+                        Err(e) => err = Some(format!("CERR {} {}", hex(n.as_bytes()), print_err(&e))),
+                    }
+                }
+            }
+            let binds = parse_binds(&mut t)?;
+            let ufuncs = parse_ufuncs(&mut t)?;
+            Ok(match err {
+                Some(e) => e,
+                None => run_ctx(&entry, progs, binds, ufuncs),
+            })
+        }
+        "serde" => {
+            // serde <fmt> <src> B( ... ): compile, round-trip through json|bincode, compare
+            // bytecode/source/params and the result of execution under the bindings
+            let fmt = t.next()?;
+            let src = unhex_str(t.next()?)?;
+            let binds = parse_binds(&mut t)?;
+            let prog = match rscel::Program::from_source(&src) {
+                Ok(p) => p,
+                Err(e) => return Ok(format!("CERR {}", print_err(&e))),
+            };
+            let back: rscel::Program = match fmt {
+                "json" => {
+                    let txt = match serde_json::to_string(&prog) {
+                        Ok(x) => x,
+                        Err(e) => return Ok(format!("SERFAIL {}", e)),
+                    };
+                    match serde_json::from_str(&txt) {
+                        Ok(p) => p,
+                        Err(e) => return Ok(format!("DEFAIL {}", e)),
+                    }
+                }
+                "bincode" => {
+                    let bytes = match bincode::serialize(&prog) {
+                        Ok(x) => x,
+                        Err(e) => return Ok(format!("SERFAIL {}", e)),
+                    };
+                    match bincode::deserialize(&bytes) {
+                        Ok(p) => p,
+                        Err(e) => return Ok(format!("DEFAIL {}", e)),
+                    }
+                }
+                _ => return Err("fmt".to_string()),
+            };
+            let code_of = |p: &rscel::Program| {
+                let mut out = String::from("C(");
+                for i in p.bytecode().iter() {
+                    out.push(' ');
+                    print_instr(&mut out, i);
+                }
+                out.push_str(" )");
+                out
+            };
+            let mut pa: Vec<String> = prog.params().iter().map(|x| x.to_string()).collect();
+            let mut pb: Vec<String> = back.params().iter().map(|x| x.to_string()).collect();
+            pa.sort();
+            pb.sort();
+            let same_code = code_of(&prog) == code_of(&back);
+            let same_meta = prog.source() == back.source() && pa == pb;
+            let r1 = run_ctx("main", vec![("main".to_string(), prog)], binds.clone(), vec![]);
+            let r2 = run_ctx("main", vec![("main".to_string(), back)], binds, vec![]);
+            Ok(format!(
+                "code={} meta={} exec={} | {} | {}",
+                same_code,
+                same_meta,
+                r1 == r2,
+                r1,
+                r2
+            ))
+        }
         "func" => {
             let name = unhex_str(t.next()?)?;
             let this = parse_value(&mut t)?;
